@@ -481,7 +481,20 @@ func prepareCall(fr *frame, call *ssa.CallCommon) (fn value, args []value) {
 		// Interface method invocation.
 		recv := v.(iface)
 		if recv.t == nil {
-			panic("method invoked on nil interface")
+			if nf := noopNilIfaceMethod(fr.i, call.Method); nf != nil {
+				// method of a no-op'd library (metrics, logging) on the nil result of a no-op'd constructor
+				fn = nf
+				args = append(args, recv.v)
+				for _, arg := range call.Args {
+					args = append(args, fr.get(arg))
+				}
+				return
+			}
+			if fr.i.initializing {
+				panic("method invoked on nil interface") // permissive package initialisation: result becomes opaque
+			}
+			// Go: calling a method on a nil interface value is a run-time panic of the program under test
+			panic(targetPanicMsg("runtime error: invalid memory address or nil pointer dereference (method call on nil interface)"))
 		}
 		if f := lookupMethod(fr.i, recv.t, call.Method); f == nil {
 			// Unreachable in well-typed programs.
